@@ -12,6 +12,7 @@ package main
 import (
 	"encoding/json"
 	"fmt"
+	"math/rand"
 	"sort"
 	"strings"
 	"sync"
@@ -46,23 +47,31 @@ func main() {
 	core.RegisterChild("seq", childSeq)
 	core.RegisterChild("conc", childConc)
 	core.RegisterChild("stop", childStop)
+	core.RegisterChild("overlap", childOverlap)
+	core.RegisterChild("big", childBig)
 	core.Main("C11", "exploration", run)
 }
 
 func run(c *core.Ctx) {
 	maxLen := c.N(7, 9)
+	ovMaxK := c.N(6, 12)
 	c.SetExhaustive(true)
 	c.SetRule(fmt.Sprintf("(1) EXHAUSTIVE small scope: every body over {unique ordinary byte, '\\n', '\\r'} of length 0..%d x every composition of the length into read sizes x {EOF after / together with the last read}, served sequentially through the same plugin instances (emulate_mode no, max_event_size unset; lengths 0..%d again with max_event_size 1..5 set; lengths 0..%d again through elasticsearch /_bulk; lengths 0..%d gzip-encoded in several block/member layouts x wire chunkings); "+
 		"(2) seeded bodies (half of them on instances with max_event_size 3..32768 set, with and without cut_off_event_by_limit) with lines around and beyond the 16 KiB read buffer, multi-byte runes, CRLF, empty lines, read plans (1-byte, fixed, random, boundaries at newlines, empty reads), gzip layouts, injected transport errors and truncated gzip streams, a sample over loopback TCP with chunked transfer encoding; "+
 		"(3) 2..32 requests in flight together on one instance under the race detector, every line tagged with request and index; "+
 		"(4) Plugin.Stop() while a body is in flight: the plugin runs with its own loopback listener, a body of 3..12 tagged lines is uploaded in 2..6 pieces over a raw TCP connection (chunked / Content-Length, plain / gzip flushed per piece), Stop() is called after k pieces were written and the lines they complete were seen by the controller, then the upload is finished (piece by piece / at once) or aborted (half-close / close); the status is the one the client reads from the wire. "+
+		"(5) histories 'several uploads aborted in the middle of the body (transport error, cut gzip stream), then 2..%d uploads whose lifetimes overlap' on one instance: a turn scheduler lets one request run at a time, a request gives the turn back at every body read and (in some rounds) while it is parked inside In, the next one is drawn from the seeded PRNG; every In call is attributed to the request holding the turn, and a request's data must be exactly its own lines; "+
+		"(6) a few large well-formed bodies (%s MiB of lines and a bit more, gzip in one / several members and plain, lines regenerated from their index instead of being stored) checked for complete hand-over with 200; "+
 		"distinct_nontrivial = distinct shapes: per read the pattern of newline / CR / run-of-ordinary-bytes (exhaustive part up to length 7; beyond that per read only newline-at-start / inside / at-end), generator class x encoding x body class (seeded part), round composition x measured interleaving (concurrent part)",
-		maxLen, maxLen-1, c.N(5, 7), c.N(4, 6)))
+		maxLen, maxLen-1, c.N(5, 7), c.N(4, 6), ovMaxK, bigSizesText(bigSpecs(c))))
 	c.Assume("the recording InputPluginController copies the data bytes during In, like pipeline.In does; data is not looked at after In returned")
 	c.Assume("gzip streams are produced by the Go standard library writer; several members decompress to the concatenation of their contents (RFC 1952)")
 	c.Assume("pipeline size settings (max_event_size 0/1..5/8/32/4096/16383..16385/32768, cut_off_event_by_limit on/off) must not change what the http input hands over: size policy is applied behind In (C20)")
 	c.Assume("an incompletely delivered body (transport read error, cut gzip stream) must not be answered with 200; what is handed over for it only has to be a prefix of the body's lines")
 	c.Assume("stop-mid-body cases: which answer a request gets when the plugin is stopped while its body is in flight (200 after draining, 4xx/5xx, connection reset) is not judged; only '2xx seen by the client => exactly the body's lines had been handed over' and 'otherwise => a prefix of the body's lines'")
+
+	c.Assume("overlap family: one request goroutine runs at a time (turns are handed over at body reads and inside In), so an In call belongs to the request that holds the turn; the bytes given to In are read again when In goes on after a park, like pipeline.In reads them after it has waited for a free event")
+	c.Assume("large bodies: no size limit on a request body is documented for the http input, so a well-formed body of any size is answered 200 only after all its lines were handed over (a documented rejection would have to be a non-2xx answer, never a silent cut)")
 
 	a := &agg{viols: map[string]*viol{}, vseen: map[string]int{}}
 	var shapesMu sync.Mutex
@@ -207,6 +216,89 @@ func run(c *core.Ctx) {
 		})
 	}()
 
+	// ---------------- phase D (next to phase B): aborted uploads, then overlapping uploads under a turn scheduler
+	nOv := c.N(6, 24)
+	ovRounds := c.N(16, 48)
+	phaseC.Add(1)
+	go func() {
+		defer phaseC.Done()
+		core.ParallelFor(nOv, 3, func(i int) {
+			in := ovIn{Seed: c.SubSeed("overlap", i), Idx: i, Rounds: ovRounds, MaxK: ovMaxK, ES: i%3 == 2, AvgEvSize: []int{16, 4096, 0}[i%3],
+				Lim: limits{MaxEventSize: []int{0, 0, 64, 0, readBufLen}[i%5], CutOff: i%2 == 1}}
+			opt := core.ChildOpt{Timeout: 20 * time.Minute, GOMAXPROCS: []int{4, 2, 8, 1}[i%4]}
+			res := core.RunChild("overlap", in, opt)
+			handleRaces(res, in)
+			if !completed(res) {
+				handleCrash("overlap", in, res, opt, false)
+				return
+			}
+			var out concOut
+			if err := json.Unmarshal(res.Out, &out); err != nil {
+				c.Inconclusive("unreadable child output")
+				return
+			}
+			c.Eval(int(out.Evals))
+			for k, n := range out.Counters {
+				c.Count("overlap:"+k, n)
+			}
+			for k, n := range out.Incon {
+				for j := 0; j < n; j++ {
+					c.Inconclusive(k)
+				}
+			}
+			a.add(out.Viols, out.VSeen)
+			shapesMu.Lock()
+			for _, s := range out.FPs {
+				shapes[s] = struct{}{}
+			}
+			if i == 0 {
+				for _, s := range out.Samples {
+					c.Sample(s)
+				}
+			}
+			shapesMu.Unlock()
+			c.Count("overlap_children_completed", 1)
+		})
+	}()
+
+	// ---------------- phase E (next to phase B): large bodies
+	bigs := bigSpecs(c)
+	phaseC.Add(1)
+	go func() {
+		defer phaseC.Done()
+		core.ParallelFor(len(bigs), c.N(3, 4), func(i int) {
+			in := bigs[i]
+			opt := core.ChildOpt{Timeout: 30 * time.Minute, GOMAXPROCS: 2}
+			res := core.RunChild("big", in, opt)
+			handleRaces(res, in)
+			if !completed(res) {
+				handleCrash("big", in, res, opt, false)
+				return
+			}
+			var out concOut
+			if err := json.Unmarshal(res.Out, &out); err != nil {
+				c.Inconclusive("unreadable child output")
+				return
+			}
+			c.Eval(int(out.Evals))
+			for k, n := range out.Counters {
+				c.Count("big:"+k, n)
+			}
+			a.add(out.Viols, out.VSeen)
+			shapesMu.Lock()
+			for _, s := range out.FPs {
+				shapes[s] = struct{}{}
+			}
+			if i == 0 {
+				for _, s := range out.Samples {
+					c.Sample(s)
+				}
+			}
+			shapesMu.Unlock()
+			c.Count("big_children_completed", 1)
+		})
+	}()
+
 	// ---------------- phase B: concurrent requests under the race detector
 	nConc := c.N(10, 40)
 	rounds := c.N(6, 16)
@@ -302,11 +394,63 @@ func run(c *core.Ctx) {
 		need("stop:answered_200_after_complete_upload", int64(nStop*stopCases/10))
 		need("stop:partial_line_pending_at_stop_and_2+_pieces_follow_and_upload_finished", int64(nStop*stopCases/20))
 		need("stop:rendezvous_on_handed_lines:reached", int64(nStop*stopCases))
+		need("overlap_children_completed", int64(nOv))
+		need("overlap:rounds", int64(nOv*ovRounds))
+		need("overlap:aborted_uploads_not_answered_200", int64(nOv*ovRounds))
+		need("overlap:overlapping_requests_judged", int64(nOv*ovRounds*2))
+		need("overlap:rounds_with_aborts_then_interleaved_uploads", int64(nOv*ovRounds/2))
+		need("overlap:turn_switches_while_a_line_was_half_read", int64(nOv*ovRounds))
+		need("overlap:turn_switches_while_parked_inside_In", int64(nOv*ovRounds/2))
+		need("overlap:requests_parked_inside_In", int64(nOv*ovRounds/2))
+		need("big_children_completed", int64(len(bigs)))
+		need("big:handed_over_completely_200", int64(len(bigs)))
+		need("big:handed_over_completely_200:gzip:32..64MiB", 1)
+		need("big:handed_over_completely_200:gzip:64..128MiB", 1)
+		need("big:handed_over_completely_200:plain:32..64MiB", 1)
+		need("big:lines_longer_than_read_buffer", 10)
 		if want := exhaustiveCount(maxLen); c.Counter("exhaustive_plain_cases") != want {
 			c.Fatal("exhaustive scope incomplete: %d of %d cases evaluated", c.Counter("exhaustive_plain_cases"), want)
 		}
 	}
 	c.Extra("exhaustive_scope", fmt.Sprintf("bodies over {ordinary,\\n,\\r} of length 0..%d x all read compositions x 2 EOF styles = %d cases", maxLen, exhaustiveCount(maxLen)))
+}
+
+// bigSpecs: the large bodies of this run. Sizes sit a seeded bit above the
+// powers of two between 8 and 256 MiB (and, in the thorough tier, just below).
+func bigSpecs(c *core.Ctx) []bigIn {
+	const mib = 1 << 20
+	type sp struct {
+		mib  int64
+		gz   string // "" plain
+		es   bool
+		near bool // a bit BELOW the mark instead of above
+	}
+	sps := []sp{{32, "best-speed", false, false}, {64, "members", false, false}, {32, "", false, false}}
+	if c.Thorough() {
+		sps = append(sps, sp{64, "", true, false}, sp{8, "default", false, false}, sp{16, "best-speed", true, false}, sp{32, "default", true, true},
+			sp{48, "members", false, false}, sp{64, "best-speed", true, true}, sp{100, "best-speed", false, false}, sp{128, "members", true, false},
+			sp{128, "", false, false}, sp{200, "default", false, false}, sp{256, "best-speed", false, false}, sp{256, "", true, false})
+	}
+	var out []bigIn
+	for i, s := range sps {
+		seed := c.SubSeed("big", i)
+		rng := rand.New(rand.NewSource(seed))
+		n := s.mib*mib + 1 + rng.Int63n(2*mib)
+		if s.near {
+			n = s.mib*mib - 3*readBufLen - rng.Int63n(mib/2)
+		}
+		out = append(out, bigIn{Seed: seed, Idx: i, Inflated: n, Gzip: s.gz != "", GzHow: s.gz, ES: s.es, Open: rng.Intn(2) == 0,
+			AvgEvSize: []int{4096, 16, 0}[i%3], Lim: limits{MaxEventSize: []int{0, 0, 0, 4096, readBufLen}[i%5], CutOff: i%2 == 1}})
+	}
+	return out
+}
+
+func bigSizesText(bs []bigIn) string {
+	var parts []string
+	for _, b := range bs {
+		parts = append(parts, fmt.Sprintf("%d", b.Inflated>>20))
+	}
+	return strings.Join(parts, "/")
 }
 
 func orNull(b json.RawMessage) []byte {
